@@ -522,7 +522,7 @@ fn main() {
             let work = std::path::PathBuf::from(args.get(2).cloned().unwrap_or_else(|| "syswork".into()));
             let r = system::run_all(&work);
             let _ = std::fs::remove_dir_all(&work);
-            rep.bound = format!("{} random single-file projects (seed VERIF_SEED, base phase) + {} fixed project scenarios x {{trailing newline on/off}} x {{Build, InMemoryBuild}} x 5 pre-states of the generated files x {} threads, then Verify (+ tampering of each output), up-to-date rebuilds (inode/mtime), Clean twice; reference = executable transcription of spec/pp.rs; scenarios where the semantics prescribe an error: {:?}", if deep() { 3000 } else { 300 }, system::scenarios().len(), if deep() { "{1,2,4,8,16} (pre-states: {1,4})" } else { "{1,4}" }, { let mut e: Vec<String> = r.expected_err.iter().filter(|x| x.as_str() != "random").cloned().collect(); e.sort(); e.push(format!("and {} of the random projects", r.expected_err.iter().filter(|x| x.as_str() == "random").count())); e });
+            rep.bound = format!("{} random single-file and {} random multi-file projects (seed VERIF_SEED; base phase, multi-file also 4 threads / verify / clean) + {} fixed project scenarios x {{trailing newline on/off}} x {{Build, InMemoryBuild}} x 5 pre-states of the generated files x {} threads, then Verify (+ tampering of each output), up-to-date rebuilds (inode/mtime), Clean twice; reference = executable transcription of spec/pp.rs; scenarios where the semantics prescribe an error: {:?}", if deep() { 3000 } else { 300 }, if deep() { 1500 } else { 150 }, system::scenarios().len(), if deep() { "{1,2,4,8,16} (pre-states: {1,4})" } else { "{1,4}" }, { let mut e: Vec<String> = r.expected_err.iter().filter(|x| x.as_str() != "random").cloned().collect(); e.sort(); e.push(format!("and {} of the random projects", r.expected_err.iter().filter(|x| x.as_str() == "random").count())); e });
             rep.checked = r.checked;
             rep.failures = r.failures;
         }
